@@ -88,6 +88,7 @@ def typed_dict(t, d):
     return [t, pairs(d)]
 
 _PERSISTENT = {}
+_WRITERS = {}
 
 def fs_roots():
     import posixpath
@@ -116,6 +117,7 @@ def do_fs(op, a):
     import shutil, json as _json
     from spil import WriteToPaths, GetFromPaths, GetFromAll, FindInPaths, FindInAll
     if op == 'fs_reset':
+        _WRITERS.clear()
         for r in fs_roots():
             if '/work/' not in r and '/tmp/' not in r:
                 raise RuntimeError('refusing to reset ' + r)
@@ -147,12 +149,19 @@ def do_fs(op, a):
         return sorted(res)
     if op == 'sidecar':
         return str(conf.get_data_json_path(Path(a[0])))
+    def writer(cfg, tag):
+        # a tagged writer lives as long as the tree (until the next fs_reset): several writer objects take turns on the same entities
+        if not tag:
+            return WriteToPaths(cfg or None)
+        if (tag, cfg) not in _WRITERS:
+            _WRITERS[(tag, cfg)] = WriteToPaths(cfg or None)
+        return _WRITERS[(tag, cfg)]
     if op == 'w_create':
-        return out(lambda: t_bool(WriteToPaths(a[0] or None).create(a[1], data=OrderedDict((k, v) for k, v in a[2]) or None)))
+        return out(lambda: t_bool(writer(a[0], a[3] if len(a) > 3 else '').create(a[1], data=OrderedDict((k, v) for k, v in a[2]) or None)))
     if op == 'w_update':
-        return out(lambda: t_bool(WriteToPaths(a[0] or None).update(a[1], data=OrderedDict((k, v) for k, v in a[2]))))
+        return out(lambda: t_bool(writer(a[0], a[3] if len(a) > 3 else '').update(a[1], data=OrderedDict((k, v) for k, v in a[2]))))
     if op == 'w_set':
-        return out(lambda: t_bool(WriteToPaths(a[0] or None).set(a[1], a[2], a[3])))
+        return out(lambda: t_bool(writer(a[0], a[4] if len(a) > 4 else '').set(a[1], a[2], a[3])))
     if op == 'sidecar_of':
         x = Sid(a[1])
         return str(conf.get_data_json_path(x.path(a[0] or None)))
